@@ -195,6 +195,23 @@ func syntaxWork(c string) string {
 	lx, _ := withWatchdog(5*time.Second, func() string { return lexDump(in) })
 	out, printed, parsed := parseOutcome(in)
 	pr, re, rp := "none", "none", "none"
+	if len(fields) == 2 && fields[1] == "BINS" {
+		// the usual sections, plus BPARSE: what the REAL BINARY says about an input that does not parse (`spok --show`):
+		// the error it prints cites a line of the file and quotes it — through cli/app's reading of the file
+		bp := "na"
+		if !parsed && out != "hang" && out != "nondet" {
+			bp = showBinary(in)
+		}
+		if parsed {
+			pr = hx(printed)
+			o2, p2, ok2 := parseOutcome(printed)
+			re = o2
+			if ok2 {
+				rp = hx(p2)
+			}
+		}
+		return fmt.Sprintf("LEX %s ; PARSE %s ; PRINT %s ; REPARSE %s ; REPRINT %s ; EXPECT %s ; BPARSE %s", lx, out, pr, re, rp, expect, bp)
+	}
 	if len(fields) == 2 && fields[1] == "BIN" {
 		// the same sections, but PRINT / REPRINT are what the REAL BINARY leaves in the spokfile after `spok --fmt`
 		// (once, twice): the whole path cli/app -> read -> parse -> load -> Tree.String -> write is under test
@@ -271,6 +288,55 @@ func fmtBinary(in string) (string, string) {
 		return hx(string(a1)), "fmtfail"
 	}
 	return hx(string(a1)), hx(string(a2))
+}
+
+var ansiRe = regexp.MustCompile("\x1b\\[[0-9;]*[A-Za-z]")
+
+// showBinary: `spok --show` on a project holding the input as its spokfile; "err <cited> <hex quoted>" when the binary fails
+// with a located syntax error, "fail" when it fails otherwise, "ok" when it succeeds
+func showBinary(in string) string {
+	if binBase == "" {
+		root := os.TempDir()
+		if st, err := os.Stat("/dev/shm"); err == nil && st.IsDir() {
+			root = "/dev/shm"
+		}
+		b, err := os.MkdirTemp(root, fmt.Sprintf("vhsyn-%d-", os.Getppid()))
+		if err != nil {
+			return "fail"
+		}
+		binBase = b
+	}
+	home := filepath.Join(binBase, "s")
+	proj := filepath.Join(home, "p")
+	_ = os.RemoveAll(home)
+	if err := os.MkdirAll(proj, 0o755); err != nil {
+		return "fail"
+	}
+	defer os.RemoveAll(home)
+	if err := os.WriteFile(filepath.Join(proj, "spokfile"), []byte(in), 0o644); err != nil {
+		return "fail"
+	}
+	ctx, cancel := context.WithTimeout(context.Background(), 20*time.Second)
+	defer cancel()
+	cmd := exec.CommandContext(ctx, filepath.Join(os.Getenv("VERIF_BUILD"), "spok"), "--show")
+	cmd.Dir = proj
+	cmd.Env = []string{"HOME=" + home, "PATH=/usr/bin:/bin", "NO_COLOR=1"}
+	if d := os.Getenv("GOCOVERDIR"); d != "" {
+		cmd.Env = append(cmd.Env, "GOCOVERDIR="+d)
+	}
+	var se strings.Builder
+	cmd.Stderr = &se
+	if cmd.Run() == nil {
+		return "ok"
+	}
+	if ctx.Err() != nil {
+		return "hang"
+	}
+	msg := strings.TrimRight(ansiRe.ReplaceAllString(se.String(), ""), "\n")
+	if n, q, ok := errLoc(msg); ok {
+		return fmt.Sprintf("err %d %s", n, hx(q))
+	}
+	return "fail"
 }
 
 // loadable: the spec is one `file.New` accepts (so that `--fmt`, which formats only what parses AND loads, goes
@@ -832,6 +898,24 @@ func genContexts(w *bufio.Writer) {
 	}
 }
 
+// genBinShow: malformed inputs handed to the real binary (BINS): long lines around the error, truncated and mutated programs
+func genBinShow(w *bufio.Writer, rng *rand.Rand, n int) {
+	long := strings.Repeat("x", 70000)
+	for _, h := range []string{"# " + long + "\n", "task big() {\n    echo " + long + "\n}\n", "L := \"" + long + "\"\n", "\xef\xbb\xbf", "\r\n\r\n"} {
+		for _, t := range []string{"task test(\"file.go\")", "task t(", "x :=", "}", "task t() {\n  echo hi", "x := \"a\" b\n", "task t() -> (\"x\"\n) {}\n"} {
+			fmt.Fprintf(w, "%s BINS\n", hx(h+t))
+			fmt.Fprintf(w, "%s BINS\n", hx(h+"ok := \"fine\"\n\n"+t+"\n# after\n"))
+		}
+	}
+	progs := genPrograms(rng, n/2)
+	for _, p := range progs {
+		fmt.Fprintf(w, "%s BINS\n", hx(mutate(rng, p)))
+		if len(p) > 2 {
+			fmt.Fprintf(w, "%s BINS\n", hx(p[:rng.Intn(len(p))]))
+		}
+	}
+}
+
 func syntaxGen(w *bufio.Writer, a map[string]string) {
 	prop := a["prop"]
 	thorough := a["tier"] == "thorough"
@@ -865,6 +949,9 @@ func syntaxGen(w *bufio.Writer, a map[string]string) {
 		genByteSweep(w)
 		genLongLines(w)
 		genContexts(w)
+		if prop == "C08" {
+			genBinShow(w, rng, 2500*scale)
+		}
 		if thorough {
 			genAlpha(w, 5)
 		} else {
